@@ -58,6 +58,7 @@ __all__ = (
     "ishashable",
     "isiterabletype",
     "isliteral",
+    "isliteralmember",
     "ismappingtype",
     "isnamedtuple",
     "isoptionaltype",
@@ -612,6 +613,21 @@ def isliteral(obj) -> bool:
     return origin(obj) is tp.Literal or (
         obj.__class__ is refs.ForwardRef and obj.__forward_arg__.startswith("Literal")
     )
+
+
+def isliteralmember(val: tp.Any, values: tp.Iterable[tp.Any]) -> bool:
+    """Test whether `val` is one of the `values` of a [`typing.Literal`][].
+
+    Literals are type-strict: `1`, `True` and `1.0` compare equal, but `Literal[1]` declares
+    neither `True` nor `1.0`.
+
+    Examples:
+        >>> isliteralmember(1, (1, "a"))
+        True
+        >>> isliteralmember(True, (1, "a"))
+        False
+    """
+    return any(val.__class__ is v.__class__ and val == v for v in values)
 
 
 @compat.cache
